@@ -639,8 +639,15 @@ func buildStubs() map[string]stubFn {
 		}
 		return nil
 	}
-	// sync.Pool
+	// sync.Pool: the most recently Put object is handed out again (LIFO reuse - one of the behaviours the runtime
+	// is allowed to show and the one that exposes use-after-Put aliasing); an empty pool calls New
 	m["(*sync.Pool).Get"] = func(ex *Exec, c *frame, fn *ssa.Function, a []Value) Value {
+		key, _ := a[0].(*Value)
+		if st := ex.pools[key]; len(st) > 0 {
+			v := st[len(st)-1]
+			ex.pools[key] = st[:len(st)-1]
+			return v
+		}
 		s := ptrStruct(a[0])
 		// New is the last field
 		newFn := s[len(s)-1]
@@ -649,7 +656,18 @@ func buildStubs() map[string]stubFn {
 		}
 		return ex.call(c, newFn, nil, 0)
 	}
-	m["(*sync.Pool).Put"] = func(ex *Exec, c *frame, fn *ssa.Function, a []Value) Value { return nil }
+	m["(*sync.Pool).Put"] = func(ex *Exec, c *frame, fn *ssa.Function, a []Value) Value {
+		key, _ := a[0].(*Value)
+		if iv, ok := a[1].(IfaceV); ok && iv.t == nil {
+			return nil
+		}
+		if ex.pools == nil {
+			ex.pools = map[*Value][]Value{}
+		}
+		ex.pools[key] = append(ex.pools[key], a[1])
+		ex.effect()
+		return nil
+	}
 
 	// ---- sync/atomic (typed values are structs with the value in the last scalar field)
 	atomicCell := func(ex *Exec, v Value) *Value {
